@@ -271,6 +271,16 @@ def cases(tier, rng):
     for _ in range(1500 if big else 40):
         rows = [_float_text(rng) for _ in range(rng.choice([2, 3, 4]))]
         yield {"op": "fbatch", "rows": rows}
+    # ---- every integer dtype formats correctly (extremes of the narrower signed / unsigned types)
+    for dt, lo, hi in [("int8", -2 ** 7, 2 ** 7 - 1), ("int16", -2 ** 15, 2 ** 15 - 1), ("int32", -2 ** 31, 2 ** 31 - 1),
+                       ("int64", I64MIN, I64MAX), ("uint8", 0, 2 ** 8 - 1), ("uint16", 0, 2 ** 16 - 1), ("uint32", 0, 2 ** 32 - 1),
+                       ("uint64", 0, 2 ** 64 - 1)]:
+        yield {"op": "fmt", "ns": [lo, hi], "dtype": dt}
+        yield {"op": "fmt", "ns": [lo], "dtype": dt}
+        for _ in range(20 if big else 3):
+            yield {"op": "fmt", "dtype": dt, "ns": [rng.choice([lo, hi, lo + 1, hi - 1, 0, rng.randint(lo, hi),
+                                                                 max(lo, min(hi, rng.choice(S))), rng.randint(lo, hi)])
+                                                    for _ in range(rng.choice([1, 2, 5]))]}
     # ---- overflow-sensitive integers: int32 edge, 10- and 19-character widest entries
     edge32 = [2 ** 31 - 1, 2 ** 31, 2 ** 31 + 1, 2 ** 32 - 1, 2 ** 32, 4999999999, 9999999999, 10 ** 10 - 2, 10 ** 10, -2 ** 31, -2 ** 31 - 1]
     for v in edge32:
@@ -429,7 +439,7 @@ def impl(c):
     op = c["op"]
     try:
         if op == "fmt":
-            return _rows(st.ints_to_strings(np.array(c["ns"], dtype=np.int64)))
+            return _rows(st.ints_to_strings(np.array(c["ns"], dtype=np.dtype(c.get("dtype", "int64")))))
         if op == "parse":
             return [int(v) for v in st.str_to_int(c["rows"])]
         if op == "parse1":
@@ -489,7 +499,8 @@ def _int_text_value(t):
 def oracle(c):
     op = c["op"]
     if op == "fmt":
-        if not c["ns"] or any(not (I64MIN <= n <= I64MAX) for n in c["ns"]):
+        info = np.iinfo(np.dtype(c.get("dtype", "int64")))
+        if not c["ns"] or any(not (int(info.min) <= n <= int(info.max)) for n in c["ns"]):
             return SKIP
         return [str(n) for n in c["ns"]]
     if op == "parse_missing":
